@@ -212,11 +212,11 @@ fn probe_positions(script: &Script, log: &MultiRecordLog, name: &str) -> Vec<u64
             candidates.push(first.saturating_sub(1));
             candidates.push(*first);
             candidates.push(*last);
-            candidates.push(last + 1);
+            candidates.push(last.saturating_add(1));
             candidates.push(positions[positions.len() / 2]);
             // a gap position, if any
             for pair in positions.windows(2) {
-                if pair[1] > pair[0] + 1 {
+                if pair[1] > pair[0].saturating_add(1) {
                     candidates.push(pair[0] + 1);
                     break;
                 }
@@ -225,7 +225,7 @@ fn probe_positions(script: &Script, log: &MultiRecordLog, name: &str) -> Vec<u64
     }
     if let Ok(Some(last)) = log.last_position(name) {
         candidates.push(last);
-        candidates.push(last + 2);
+        candidates.push(last.saturating_add(2));
     }
     candidates.push(*script.anchors.last().unwrap() + 5);
     candidates.retain(|position| script.enc(*position) >= 0);
